@@ -9,7 +9,7 @@ from typing import Dict, List, Optional, Set, Tuple
 
 from .core import AnalysisError, Report
 from .emit import Folder, Slot, Tpl, balance_errors
-from .prog import (ClassInfo, Program, bind_call, dotted, enclosing, func_params, guards_of,
+from .prog import (ClassInfo, Program, bind_call, bound_args, dotted, enclosing, func_params, guards_of,
                    inline_locals, local_assignments, parent, single_def, stmt_of, unparse, value_def, walk_no_nested)
 
 PW = "gtwrap/pybind_wrapper.py"
@@ -836,9 +836,91 @@ def rule_same_entity(ctx, rep: Report, rid="B6"):
         if isinstance(c, ast.Call) and unparse(c.func) == "self._add_namespaces":
             quals.append([unparse(a) for a in c.args])
     nsdef = [unparse(v) for v in values_of(wn, ast.Name(id=nsvar, ctx=ast.Load()))]
-    rep.add(rid, "free functions and variables qualified with the full namespace path of their namespace",
-            len(quals) == 2 and all(q == ["''", nsvar] for q in quals) and nsdef == [f"{func_params(wn)[1]}.full_namespaces()"],
-            f"_add_namespaces called with {quals}; {nsvar} = {nsdef}", f"{ci.mod.rel}:{wn.lineno}")
+    evaluated = _qualifier_by_evaluation(ctx, wn, nsvar)
+    if evaluated is not None:
+        bad = [f"{what} in {'::'.join(ns) or '(global)'} with top module {'::'.join(top) or '(none)'}: `{got}`" for what, ns, top, got, ok_ in evaluated if not ok_]
+        rep.add(rid, "free functions and variables qualified with the full namespace path of their namespace",
+                not bad and nsdef == [f"{func_params(wn)[1]}.full_namespaces()"],
+                f"qualifier put in front of the name, evaluated on sample namespace paths: {bad[:3]} (the full path `a::b::c::` is required whatever the top module is: "
+                f"a shorter one names another function or none); {nsvar} = {nsdef}", f"{ci.mod.rel}:{wn.lineno}")
+    else:
+        rep.add(rid, "free functions and variables qualified with the full namespace path of their namespace",
+                len(quals) == 2 and all(q == ["''", nsvar] for q in quals) and nsdef == [f"{func_params(wn)[1]}.full_namespaces()"],
+                f"_add_namespaces called with {quals}; {nsvar} = {nsdef}", f"{ci.mod.rel}:{wn.lineno}")
+
+
+def _inline_except(fn, expr, keep: Set[str], depth: int = 5):
+    """inline_locals that leaves the names in `keep` alone."""
+    from .prog import clone_expr
+    params = set(func_params(fn))
+
+    class T(ast.NodeTransformer):
+        def __init__(self, d):
+            self.d = d
+
+        def visit_Name(self, node):
+            if isinstance(node.ctx, ast.Load) and node.id not in params and node.id not in keep and self.d > 0:
+                v = value_def(fn, node.id)
+                if v is not None:
+                    return T(self.d - 1).visit(clone_expr(v))
+            return node
+    return T(depth).visit(clone_expr(expr))
+
+
+def _qualifier_by_evaluation(ctx, wn, nsvar):
+    """[(what, namespace path, top module, text put in front of the name, ok)] for the calls of wrap_functions / wrap_variable in
+    wrap_namespace: the argument that carries the scope is evaluated (own interpreter, helpers of the class followed) for sample
+    paths and top-module settings, then pushed through the way the callee puts it in front of the name.  None when a step is
+    written in a way the interpreter does not follow."""
+    from .rules_matlab import SampleObj, _PathEval, _Raised, mini_exec
+    ci, prog = pw(ctx)
+    out = []
+    targets = []
+    for c in walk_no_nested(wn):
+        if isinstance(c, ast.Call) and isinstance(c.func, ast.Attribute) and unparse(c.func.value) == "self" and c.func.attr in ("wrap_functions", "wrap_variable"):
+            callee = prog.method("PybindWrapper", c.func.attr)
+            b = bound_args(callee, c)
+            if "namespace" not in b:
+                return None
+            targets.append((c.func.attr, callee, _inline_except(wn, b["namespace"], {nsvar})))
+    if len(targets) < 2:
+        return None
+    methods = dict(ci.methods)
+
+    def probe(params, expr, env):
+        fn_ = ast.parse("def _probe(" + ", ".join(params) + "):\n    return 0").body[0]
+        fn_.body[0].value = expr
+        return mini_exec(fn_, env, budget=3000, methods=methods)
+    try:
+        for what, callee, argx in targets:
+            # how the callee places its `namespace` parameter in front of the name
+            if what == "wrap_functions":
+                tpl = find_tpl(ctx, emitter(ctx, "wrap_functions"), {"opt_return", "caller"})
+                use = tpl.slot("caller").val if tpl is not None and tpl.slot("caller") is not None else None
+                host = emitter(ctx, "wrap_functions")
+            else:
+                tpl = find_tpl(ctx, callee, {"variable_name", "namespace"})
+                use = tpl.slot("namespace").val if tpl is not None and tpl.slot("namespace") is not None else None
+                host = callee
+            if use is None:
+                return None
+            use = inline_locals(host, use)
+            hp = [p for p in func_params(host) if p != "self"]
+            if "namespace" not in hp:
+                return None
+            for ns in ([""], ["", "a"], ["", "a", "b", "c"]):
+                for top in ([""], ["", "a"], ["", "a", "b"]):
+                    if top[1:] != ns[1:len(top)]:
+                        continue
+                    me = SampleObj(top_module_namespaces=list(top))
+                    arg = probe(["self", nsvar], argx, {"self": me, nsvar: list(ns)})
+                    got = probe(["self", "namespace"], use, {"self": me, "namespace": arg})
+                    want = "::".join(ns[1:]) + "::" if len(ns) > 1 else ""
+                    ok_ = isinstance(got, str) and (got == want or got == "::" + want)
+                    out.append((what, ns, top, got, ok_))
+    except (_PathEval.Unknown, _Raised, AnalysisError, SyntaxError):
+        return None
+    return out
 
 
 def _namespaces_local(wn) -> str:
@@ -1988,3 +2070,62 @@ def rule_operator_bindings_by_evaluation(ctx, rep: Report, rid="A11"):
     rep.add(rid, "wrap_operators:one binding per declared operator, in declaration order, in the form of its kind", got == want,
             f"for the operators {[('unary ' if o['is_unary'] else '') + o['operator'] for o in sample]} the text holds {len(pieces)} binding(s) {got}; "
             f"declared are {len(want)}: an operator that shares its symbol with an earlier one (unary and binary `-` / `+`) is not bound", loc)
+
+
+def rule_free_function_binding_is_name_independent(ctx, rep: Report, rid="B12"):
+    """A free function is bound to a lambda that calls *that function* with its arguments, whatever it is called: the only thing
+    its name decides is the trailing underscore of the Python name.  The special cases of members (serialize / pickle, print and
+    __repr__, the _repr_*_ family) do not exist for free functions - `void serialize(const Archive&, bool)` in a namespace is an
+    ordinary function.  In the function that builds the text for one free function (wrap_functions, or the helper it hands each
+    function to) no test compares the function's name with a literal other than through the keyword table."""
+    ci, prog = pw(ctx)
+    wf = prog.method("PybindWrapper", "wrap_functions")
+    fn = emitter(ctx, "wrap_functions")
+    # the element: the loop variable of wrap_functions, or the parameter of the helper that receives it
+    elems: Set[str] = set()
+    if fn is wf:
+        for l in walk_no_nested(wf):
+            if isinstance(l, ast.For) and isinstance(l.target, ast.Name) and unparse(l.iter) in func_params(wf):
+                elems.add(l.target.id)
+    else:
+        for c in ast.walk(wf):
+            if isinstance(c, ast.Call) and isinstance(c.func, ast.Attribute) and c.func.attr == fn.name:
+                b = bound_args(fn, c)
+                loopvars = {l.target.id for l in ast.walk(wf) if isinstance(l, (ast.For, ast.comprehension)) and isinstance(l.target, ast.Name)}
+                elems |= {p for p, v in b.items() if isinstance(v, ast.Name) and v.id in loopvars}
+    if not elems:
+        raise AnalysisError("wrap_functions: the per-function element (loop variable / helper parameter) was not found")
+    hits = []
+    n = 0
+    # locals that carry the function's name (through any of their assignments)
+    named: Set[str] = set()
+
+    def mentions_name(x) -> bool:
+        return any((isinstance(y, ast.Attribute) and y.attr == "name" and isinstance(y.value, ast.Name) and y.value.id in elems)
+                   or (isinstance(y, ast.Name) and y.id in named) for y in ast.walk(x))
+    changed = True
+    while changed:
+        changed = False
+        for st in walk_no_nested(fn):
+            if isinstance(st, ast.Assign) and len(st.targets) == 1 and isinstance(st.targets[0], ast.Name) and st.targets[0].id not in named \
+                    and not isinstance(st.value, ast.Call) and mentions_name(st.value):
+                named.add(st.targets[0].id)
+                changed = True
+    for c in walk_no_nested(fn):
+        if not (isinstance(c, ast.Compare) and len(c.ops) == 1):
+            continue
+        sides = [c.left, c.comparators[0]]
+        about_name = [mentions_name(x) and not any(isinstance(y, ast.Call) for y in ast.walk(x)) for x in sides]
+        if not any(about_name):
+            continue
+        n += 1
+        other = sides[1] if about_name[0] else sides[0]
+        if "python_keywords" in unparse(other):
+            continue
+        lits = [x.value for x in ast.walk(other) if isinstance(x, ast.Constant) and isinstance(x.value, str)]
+        tables = [x for x in ast.walk(other) if isinstance(x, ast.Attribute) and isinstance(x.value, ast.Name) and x.value.id == "self"]
+        if lits or tables:
+            hits.append(f"line {c.lineno}: `{unparse(c)[:50]}`")
+    rep.add(rid, "wrap_functions:the binding of a free function depends on its name only through the keyword table", not hits,
+            f"{hits[:4]}: a free function with one of these names gets the binding of a class member of that name (a `self` receiver, pickling, "
+            f"`__repr__`, a renamed or dropped binding) instead of a call of the declared function", f"{ci.mod.rel}:{fn.lineno}")
